@@ -54,6 +54,14 @@ CONFIGS: dict[str, dict[str, Any]] = {
                                     "options": {"seed": 3, "popsize": 2, "maxiter": 1, "tol": 0.0}}},
     "slsqp-too-few": {"optimizer": {"method": "slsqp", "options": {"maxiter": 4}}, "_fail": "one-at-2"},
     "slsqp-user-abort": {"optimizer": {"method": "slsqp", "options": {"maxiter": 4}}, "_abort_at_start": 2},
+    "slsqp-scaled": {"optimizer": {"method": "slsqp", "options": {"maxiter": 3}},
+                     "nonlinear_constraints": {"lower_bounds": [-1.0], "upper_bounds": [0.5]},
+                     "linear_constraints": {"coefficients": [[1.0, -1.0, 0.5]], "lower_bounds": [-3.0], "upper_bounds": [2.0]},
+                     "gradient": {"number_of_perturbations": 3, "perturbation_magnitudes": 0.02, "perturbation_types": [1, 2, 1]},
+                     "_vscale": ([2.0, 0.5, 4.0], [0.1, 0.0, -0.3])},
+    "cobyla-constrained": {"optimizer": {"method": "cobyla", "options": {"maxiter": 6}},
+                           "variables": {"lower_bounds": [-float("inf")] * 3, "upper_bounds": [float("inf")] * 3},
+                           "nonlinear_constraints": {"lower_bounds": [-1.0], "upper_bounds": [float("inf")]}},
     "slsqp-explicit-start": {"optimizer": {"method": "slsqp", "options": {"maxiter": 3}}, "_start": [0.9, 0.4, -0.7]},
     "de-explicit-start-masked": {"optimizer": {"method": "differential_evolution", "options": {"seed": 5, "popsize": 2, "maxiter": 1, "tol": 0.0}},
                                  "variables": {"mask": [True, True, False]}, "_start": [-0.5, 0.25, 1.1]},
@@ -180,8 +188,13 @@ def run_config(name: str, external: bool, kill: tuple[Any, ...] | None = None, r
     step = plan.add_step("optimizer")
     out: dict[str, Any] = {"exc": None, "code": None, "hang": False}
     start = CONFIGS[name].get("_start")
+    transforms = None
+    if CONFIGS[name].get("_vscale"):
+        from ropt.transforms import OptModelTransforms, VariableScaler
+
+        transforms = OptModelTransforms(variables=VariableScaler(*(np.array(v) for v in CONFIGS[name]["_vscale"])))
     try:
-        out["code"] = plan.run_step(step, config=cfg, variables=None if start is None else np.array(start))
+        out["code"] = plan.run_step(step, config=cfg, transforms=transforms, variables=None if start is None else np.array(start))
     except HangError:
         out["hang"] = True
     except HarnessError:
